@@ -292,6 +292,8 @@ package bridgesync
 //@   modifies c.ProofLocalExitRoot, c.ProofRollupExitRoot, c.MainnetExitRoot, c.RollupExitRoot, c.DestinationNetwork, c.Metadata, c.GlobalExitRoot, c.FromAddress, c.IsMessage
 //@   ensures[reverted-frames-are-skipped] call.Err != nil ==> !result0 && result1 == nil && *c == old(*c)
 //@   ensures[error-means-not-found] result1 != nil ==> !result0
+// the frame offered by the search is decoded with its own caller as the sender and its own input as the calldata
+//@   assert call:tryDecodeClaimCalldata arg0 == c && arg1 == call.From && arg2 == call.Input
 //@   ensures[what-the-event-said-is-untouched] c.GlobalIndex == old(c.GlobalIndex) && c.BlockNum == old(c.BlockNum) && c.BlockPos == old(c.BlockPos) && c.OriginNetwork == old(c.OriginNetwork) && c.OriginAddress == old(c.OriginAddress) && c.DestinationAddress == old(c.DestinationAddress) && c.Amount == old(c.Amount) && c.TxHash == old(c.TxHash)
 
 // tracing the claim transaction (C20): the trace comes from the node (assumed, A8: the RPC call fills the frame it is
